@@ -19,6 +19,20 @@ class _OldRewriter(ast.NodeTransformer):
         return n
 
 
+class _LazyRewriter(ast.NodeTransformer):
+    """implies(a, b) and ite(c, a, b) do not evaluate the branch that is not taken (as in the z3 reading, where a term
+    of the wrong sort under a false guard is harmless): implies(a, b) -> (b if a else True), ite(c, a, b) -> (a if c else b)"""
+    def visit_Call(self, n):
+        self.generic_visit(n)
+        if isinstance(n.func, ast.Name) and n.func.id == 'implies' and len(n.args) == 2 and not n.keywords:
+            return ast.copy_location(ast.IfExp(test=n.args[0], body=ast.Call(func=ast.Name(id='bool', ctx=ast.Load()),
+                                                                            args=[n.args[1]], keywords=[]),
+                                               orelse=ast.Constant(True)), n)
+        if isinstance(n.func, ast.Name) and n.func.id == 'ite' and len(n.args) == 3 and not n.keywords:
+            return ast.copy_location(ast.IfExp(test=n.args[0], body=n.args[1], orelse=n.args[2]), n)
+        return n
+
+
 def native_env(specfns, empty_cls=None):
     def is_empty(x):
         return type(x).__name__ in ('EmptyCell', 'EmptyStandIn')
@@ -46,7 +60,7 @@ def native_env(specfns, empty_cls=None):
 def native_eval(text, env, values, old_values=None):
     """Evaluate a spec expression natively. values: {name: python value}; old_values: pre-state copies."""
     tree = ast.parse(text.strip(), mode='eval')
-    tree = ast.fix_missing_locations(_OldRewriter().visit(tree))
+    tree = ast.fix_missing_locations(_LazyRewriter().visit(_OldRewriter().visit(tree)))
     scope = dict(env)
     scope.update(values)
     scope['__old__'] = old_values if old_values is not None else values
